@@ -6,6 +6,7 @@ import (
 	"bytes"
 	"encoding/json"
 	"fmt"
+	ledger "github.com/formancehq/ledger/internal"
 	"strings"
 )
 
@@ -29,6 +30,36 @@ func permuteExport(stream string, order []int) string {
 			out.WriteString(line)
 			out.WriteString("\n")
 		}
+	}
+	return out.String()
+}
+
+// rehashExport recomputes the hashes of an export stream so that each log chains from the one before it IN THE
+// STREAM (what a tool that reorders logs and fixes the hashes up would send): the importer's per-log hash check
+// then passes, and only its id check stands between the stream and a chain that is not linear in id order.
+func rehashExport(stream string) string {
+	var out bytes.Buffer
+	var prev *ledger.Log
+	for _, line := range strings.Split(stream, "\n") {
+		if strings.TrimSpace(line) == "" {
+			continue
+		}
+		var l ledger.Log
+		if err := json.Unmarshal([]byte(line), &l); err != nil {
+			out.WriteString(line + "\n")
+			continue
+		}
+		l.Hash = nil
+		l.ComputeHash(prev)
+		b, err := json.Marshal(l)
+		if err != nil {
+			out.WriteString(line + "\n")
+			continue
+		}
+		out.Write(b)
+		out.WriteString("\n")
+		cp := l
+		prev = &cp
 	}
 	return out.String()
 }
@@ -705,4 +736,43 @@ func checkStatementsStayInLedger(r *runner) []Violation {
 		vs = append(vs, Violation{r.sc.Property, "statements-touch-only-their-ledgers-rows", fmt.Sprintf("%s, a request on ledger %s, executed a statement that matched a row of ledger %s (table %s, key %s): %s%s", f.Task, f.Ledger, f.RowLedger, f.Table, strings.ReplaceAll(f.Key, "\x00", "/"), f.SQL, tag)})
 	}
 	return vs
+}
+
+func init() {
+	// C09, import: a stream whose ids do not come in order and whose hashes were recomputed to chain in STREAM
+	// order. The importer checks each log's hash against the chain it is building, so these hashes pass; the
+	// chain stays linear in id order only because the importer refuses a log whose id is not above the previous
+	// one. Whatever it committed before refusing must chain in id order, and so must the first write after it.
+	register(Profile{Property: "C09", Name: "import-reordered", Gen: func(r *RNG, seed uint64, tier string) (*Scenario, *ExploreCfg) {
+		sc := &Scenario{Property: "C09", Profile: "import-reordered", Knobs: randomKnobs(r), Checks: []string{"hash-chain", "log-order"}, Params: map[string]string{}}
+		sc.Knobs.HashLogs = "SYNC"
+		g := &gen{r: r, sc: sc}
+		feats := ledgerFeatures(sc.Knobs)
+		sc.Setup = []Op{{ID: g.id("s"), Kind: KCreateLedger, Ledger: "src", Feats: feats}}
+		n := 4 + r.Intn(3)
+		for i := 0; i < n; i++ {
+			sc.Setup = append(sc.Setup, Op{ID: g.id("h"), Kind: KPostings, Ledger: "src", Postings: []PostingSpec{{"world", fmt.Sprintf("g:%d", i), "10", "USD"}}})
+		}
+		sc.Setup = append(sc.Setup, Op{ID: g.id("s"), Kind: KExport, Ledger: "src"}, Op{ID: g.id("s"), Kind: KCreateLedger, Ledger: "dst", Feats: feats})
+		order := []int{}
+		for i := 1; i <= n; i++ {
+			order = append(order, i)
+		}
+		i := r.Intn(n - 1)
+		order[i], order[i+1] = order[i+1], order[i]
+		if r.Chance(0.3) {
+			j, k := r.Intn(n), r.Intn(n)
+			order[j], order[k] = order[k], order[j]
+		}
+		if r.Chance(0.3) {
+			order = order[:len(order)-1] // a gap instead of the last log
+		}
+		ops := []Op{{ID: "c0.0", Kind: KImport, Ledger: "dst", From: "src", ImportOrder: order, ImportRehash: true, Chunked: Pick(r, []int{64, 1 << 20})}}
+		// then ordinary writes on the destination, whatever the import left there
+		for w := 0; w < 1+r.Intn(2); w++ {
+			ops = append(ops, Op{ID: fmt.Sprintf("c0.%d", w+1), Kind: KPostings, Ledger: "dst", Postings: []PostingSpec{{"world", "after", "1", "USD"}}})
+		}
+		sc.Clients = [][]Op{ops}
+		return sc, defaultExplore(seed, 0, 0)
+	}})
 }
